@@ -5,6 +5,7 @@ import (
 	"github.com/smarthome-go/homescript/v3/homescript/errors"
 	pAst "github.com/smarthome-go/homescript/v3/homescript/parser/ast"
 	"github.com/smarthome-go/homescript/v3/homescript/runtime/value"
+	"sort"
 )
 
 const MainFunctionIdent = "main"
@@ -125,7 +126,16 @@ func (self *Compiler) compileProgram(
 		Singletons: make(map[string]string),
 	}
 
-	for moduleName, module := range program {
+	// The modules are visited in a fixed (sorted) order, so that the generated code does not depend on the
+	// iteration order of the map (numbering of lambdas, order of the calls to the modules' initializers).
+	moduleNames := make([]string, 0, len(program))
+	for moduleName := range program {
+		moduleNames = append(moduleNames, moduleName)
+	}
+	sort.Strings(moduleNames)
+
+	for _, moduleName := range moduleNames {
+		module := program[moduleName]
 		self.currModule = moduleName
 		self.modules[self.currModule] = make(map[string]*Function)
 
@@ -206,7 +216,8 @@ func (self *Compiler) compileProgram(
 
 	moduleAnnotations := make(ModuleAnnotations)
 
-	for moduleName, module := range program {
+	for _, moduleName := range moduleNames {
+		module := program[moduleName]
 		self.currModule = moduleName
 
 		// Compile all functions
@@ -253,7 +264,8 @@ func (self *Compiler) compileProgram(
 			self.currFn = InitFunctionIdent
 			self.currModule = entryPointModule
 
-			for moduleName, otherInit := range initFns {
+			for _, moduleName := range moduleNames {
+				otherInit := initFns[moduleName]
 				if moduleName == entryPointModule {
 					continue
 				}
